@@ -95,7 +95,8 @@ static _Bool r_reading(struct left_right* s, struct T* x);
 /* ---- functor stubs ---- */
 #define N_UF 4
 unsigned uf_n; int uf_inst[N_UF]; uint64_t uf_clk[N_UF]; _Bool uf_held[N_UF]; _Bool uf_excl_bad; _Bool uf_reader_elsewhere[N_UF];
-uint64_t in_k; _Bool fn_may_throw; unsigned cur_update;
+uint64_t in_k; unsigned in_throw; unsigned cur_update;   /* in_throw: 0 = the functor never throws, n = it throws on its n-th application */
+int in_ver, in_lri; uint64_t in_left, in_right, in_c0, in_c1;   /* the entry state, for the native replay */
 uint64_t in_k2;
 static int inst_id(struct left_right* s, struct T* x) { return x == &s->_left ? 0 : x == &s->_right ? 1 : 2; }
 static void xv_ufunc(struct T* x) {      /* the update functor: x := 3x + k (k per update; not commutative between updates) */
@@ -105,7 +106,7 @@ static void xv_ufunc(struct T* x) {      /* the update functor: x := 3x + k (k p
                      uf_reader_elsewhere[uf_n] = (r_state == R_READING); }
   uf_n++;
   if (r_reading(s, x)) uf_excl_bad = 1;
-  if (fn_may_throw && nondet_bool()) { x->val = nondet_u64(); XV_THROW(functor); return; }
+  if (in_throw == uf_n) { x->val = nondet_u64(); XV_THROW(functor); return; }
   x->val = x->val * 3 + (cur_update == 0 ? in_k : in_k2);
   XV_ENV();
   if (r_reading(s, x)) uf_excl_bad = 1;     /* a reader entered while the functor was running */
@@ -115,7 +116,7 @@ unsigned rf_n; int rf_inst; uint64_t rf_clk, rf_result, in_rk;
 static uint64_t xv_rfunc(struct T* x) {   /* the read functor */
   struct left_right* s = mon_self;
   rf_n++; rf_inst = inst_id(s, x); rf_clk = ++xv_clock;
-  if (fn_may_throw && nondet_bool()) { XV_THROW(functor); return 0; }
+  if (in_throw != 0) { XV_THROW(functor); return 0; }
   rf_result = x->val ^ in_rk;
   return rf_result;
 }
@@ -191,7 +192,9 @@ static void havoc_lr(struct left_right* s) {
   mon_reset(s);
   mtx_locks = 0; mtx_unlocks = 0; mtx_bad = 0; mtx_lock_clk = 0; mtx_unlock_clk = 0;
   uf_n = 0; uf_excl_bad = 0; rf_n = 0; rf_inst = 2; rf_clk = 0; rf_result = 0; wait_n = 0; tog_n = 0; tog_enter_clk = 0; tog_exit_clk = 0; cur_update = 0;
-  in_k = nondet_u64(); in_k2 = nondet_u64(); in_rk = nondet_u64(); fn_may_throw = nondet_bool();
+  in_k = nondet_u64(); in_k2 = nondet_u64(); in_rk = nondet_u64(); in_throw = nondet_uint(); XV_ASSUME(in_throw <= 2);
+  in_ver = s->_version_index; in_lri = s->_lr_indicator; in_left = s->_left.val; in_right = s->_right.val;
+  in_c0 = s->_read_indicator1._counter; in_c1 = s->_read_indicator2._counter;
   env_self = s; env_on = 0; env_kind = 0;
   r_state = nondet_int(); r_vi = nondet_int(); r_inst = nondet_int(); r_arrive_clk = 0; r_lri_clk = 0; r_cycles = 0;
   XV_ASSUME(r_state >= R_IDLE && r_state <= R_READING && (r_vi == 0 || r_vi == 1) && (r_inst == READ_LEFT || r_inst == READ_RIGHT));
@@ -366,7 +369,7 @@ void h_update(void) {
 /* back-to-back updates (same or different writer: the mutex serialises them), with the tracked reader running throughout */
 void h_update2(void) {
   struct left_right s; havoc_lr(&s);
-  XV_ASSUME(inv_idle(&s)); fn_may_throw = 0;
+  XV_ASSUME(inv_idle(&s)); in_throw = 0;
   int l0 = s._lr_indicator, v0 = s._version_index; uint64_t L0 = s._left.val, R0 = s._right.val;
   env_on = 1; env_kind = 1;
   lr_update(&s);
@@ -420,7 +423,7 @@ void h_read(void) {
 /* no interference: the read returns the functor's value of the instance the indicator selects and leaves everything as it was */
 void h_read_seq(void) {
   struct left_right s; havoc_lr(&s);
-  struct left_right s0 = s; fn_may_throw = nondet_bool();
+  struct left_right s0 = s;
   uint64_t res = lr_read(&s);
   XV_OBL("lr.read.bracket", xv_threw || res == (sel(&s0, s0._lr_indicator)->val ^ in_rk));
   XV_OBL("lr.read.bracket", s._version_index == s0._version_index && s._lr_indicator == s0._lr_indicator && s._left.val == s0._left.val && s._right.val == s0._right.val
